@@ -71,6 +71,9 @@ class HistoryGen:
         self.d = d
         self.rng = rng
         self.im = d.Impl()
+        # the fake link keeps packet references and transmits `lag` packets behind the sender
+        self.lag = rng.choice([0, 1, 2, 99])
+        self.im.cf.lag = self.lag
         self.sizes = _types()
         self.tids = sorted(self.sizes)
         self.evs = []
@@ -370,10 +373,11 @@ def _gen_sync(rng):
     return evs
 
 
-def _replay_events(evs):
+def _replay_events(evs, lag=0):
     """a fixed event list on a fresh implementation: (flattened hashed records, full records, Coq list)"""
     d = _driver()
     im = d.Impl()
+    im.cf.lag = lag
     recs, full, parts = [], [], []
     k = 0
     for e in evs:
@@ -388,7 +392,7 @@ def _replay_events(evs):
     return recs, full, '[' + '; '.join(parts) + ']'
 
 
-def _shrink_history(evs, rounds=16):
+def _shrink_history(evs, rounds=16, lag=0):
     """delta debugging on the event list; every round evaluates all candidates in one batch of coqc runs"""
     cur = list(evs)
     chunk = max(1, len(cur) // 2)
@@ -396,7 +400,7 @@ def _shrink_history(evs, rounds=16):
         rounds -= 1
         cands = [cur[:i] + cur[i + chunk:] for i in range(0, len(cur), chunk)]
         cands = [c for c in cands if c]
-        data = [_replay_events(c) for c in cands]
+        data = [_replay_events(c, lag) for c in cands]
         try:
             bad = coqrun.compare_blocks(HEADER, ['enc_run init_st ' + t for _, _, t in data], [r for r, _, _ in data],
                                         tag='c05k', shard=max(1, len(cands) // 12 + 1), timeout=600)
@@ -433,8 +437,8 @@ def tie(ctx):
     # differ) and the difference is localised to an event
     for bi in sorted(bad, key=lambda i: len(gens[i].evs))[:2]:
         g = gens[bi]
-        evs = _shrink_history(g.evs)
-        recs, full, lst = _replay_events(evs)
+        evs = _shrink_history(g.evs, lag=g.lag)
+        recs, full, lst = _replay_events(evs, g.lag)
         hs = coqrun.eval_terms(HEADER, ['map rec_hash (enc_run_recs init_st %s)' % lst], tag='c05f', timeout=900)[0]
         d = _driver()
         i = 0
@@ -446,7 +450,7 @@ def tie(ctx):
         m = coqrun.eval_terms(HEADER, ['nth %d (enc_run_recs init_st %s) []' % (i, lst)], tag='c05g',
                               timeout=900)[0] if i < len(full) else None
         dis.append({'what': 'log history: model and implementation differ', 'history': evs[:i + 1],
-                    'shrunk_from_events': len(g.evs), 'shrunk_to_events': len(evs),
+                    'radio_lag_packets': g.lag, 'shrunk_from_events': len(g.evs), 'shrunk_to_events': len(evs),
                     'event_index': i, 'event': evs[i] if i < len(evs) else None,
                     'impl_record': full[i] if i < len(full) else None, 'model_record': m,
                     'record_format': '[#obs] obs.. [exception] state.. (coq/C05/TieEnc.v enc_run_recs)'})
@@ -602,8 +606,16 @@ def _check_block(case):
     im = d.Impl()
     cf = im.cf
 
+    im.cf.lag = case.get('lag', 99)      # the link keeps references; the radio reads them `lag` packets later
+
     def ev(e):
         flat, wires, code = im.apply(e)
+        if im.resend_diff:
+            b = im.resend_diff[0]
+            raise _Fail('sent_packet_changed_before_transmission', b['commanded'],
+                        {'transmitted': b['transmitted'], 'resent': b['resent']},
+                        'event %r: the packet object handed to send_packet was modified afterwards; the radio '
+                        '(%d packets behind) and the resend timer read the later content' % (e, im.cf.lag))
         return wires, code, list(im.obs)
     toc = {}
     for nm, ident, ty in case['toc']:
@@ -933,6 +945,7 @@ def _gen_block_case(rng, force=None):
         samples.append([rng.choice([0, 0xFFFFFF, rng.getrandbits(24), rng.getrandbits(24)]), vals])
     case = {'kind': 'block', 'toc': toc, 'ms': ms, 'vars': vs, 'samples': samples,
             'delete': rng.random() < 0.5, 'reconnect': rng.random() < 0.6}
+    case['lag'] = rng.choice([0, 1, 2, 99, 99])
     tn = [v for v in vs if v[0] != 'm']
     if len(tn) >= 2 and not miss and rng.random() < 0.2:
         # the first device lacks one of the variables (not the first one): rejected with KeyError; the
@@ -1373,6 +1386,7 @@ TRUSTED_BASE = [
     'C05/Model.v is hand-written from cflib/crazyflie/log.py, toc.py and syncLogger.py (with the repairs F05b, F05c, F05d); '
     'tied on every run by differential execution of random histories on the real classes (fake Crazyflie), comparing '
     'after every event the packets sent, callbacks, decoded samples, exception class and the complete state',
+    'the fake link keeps packet references and reads them 0/1/2 packets or a whole call later, and once more as a resend',
     'C05/Gen_Consts.v (type table, MAX_LEN, MAX_DATA_SIZE, commands, error codes) is regenerated from the source by a '
     'fail-closed ast reader (harness/props/c05_gen.py); the proofs are re-checked against it',
     'device side (firmware) of the theorems: create/append payload = array of {u8 type, u16 index}, count = (size-2)/3 '
@@ -1403,7 +1417,8 @@ PROVED = ('Over the model: add_config accepts iff names in TOC, 1<=int(ms/10)<=2
           'dispatcher, user and consumer steps, several loggers): yields a prefix of the own samples delivered in the session, '
           'nothing foreign or from an earlier session, and terminates after a completed link loss -- also a loss at any '
           'point of connect() (step-by-step connect, loss between steps or inside a send); the late-registration variant '
-          'of connect() is refuted.')
+          'of connect() is refuted; value contract of a sent packet (fresh packet per create/append message: transmitted = '
+          'commanded for every lag and resend schedule; shared packet object refuted).')
 NOT_PROVED = ('Refuted on the unchanged code and kept as a known finding: raw-memory variables (add_memory) make create() '
               'raise TypeError (F05a; why it is not repaired: findings/C05.json why_not_fixed).  Not covered: protocol V1 has '
               'its theorem but no room test exists in the code (more than 14 variables exceed 30 bytes); append '
